@@ -20,15 +20,18 @@ var Known = struct {
 	ConstTDZAssign          bool // C02-const-tdz-assign: assignment to a const binding inside its temporal dead zone
 	MulNegZero              bool // C02-int-mul-negzero: a multiplication of integers that yields -0
 	ComputedKeyOverAccessor bool // C02-computed-key-over-accessor: object literal {get p(){}, [k]: v} with k == "p"
-	ParamDefaultName        bool // C02-param-default-name: the default of an identifier parameter is an anonymous function / class and is taken
+	EvalVarShadowsOuter     bool // C02-eval-var-shadows-outer: a sloppy direct eval declares a var/function whose name is also bound in an enclosing non-global scope
+	EvalVarOverPatternParam bool // C02-eval-var-over-pattern-param: a sloppy direct eval declares a var named like a destructured / rest parameter (no parameter expressions)
+	ThisInEvalBeforeSuper   bool // C02-this-in-eval-before-super: this / super.x reached from eval code in a derived constructor before super()
 	EvalVarFuncName         bool // C02-eval-var-function-expression-name: a sloppy direct eval declares a var/function named like the enclosing named function expression
 	MappedArgsEval          bool // C02-mapped-arguments-eval-var: a sloppy direct eval declares a var/function in a function that has a mapped arguments object
 }{
 	// still listed in known-findings.d/C02.json:
-	ComputedKeyOverAccessor: true,
 	EvalVarFuncName:         true,
-	ParamDefaultName:        true,
-	// the others were fixed in /repo (386f001, 5d89e51, 510ab8b, f4667a3, 68e2c4f): traps off
+	EvalVarShadowsOuter:     true,
+	EvalVarOverPatternParam: true,
+	ThisInEvalBeforeSuper:   true,
+	// the others were fixed in /repo (386f001, 5d89e51, 510ab8b, f4667a3, 68e2c4f, computed-key): traps off
 }
 
 func (it *Interp) trap(on bool, id string) {
